@@ -832,8 +832,7 @@ theorem discrete_yes (n : Nat) (v : PyVal) (h : discreteContains n v = .yes) :
   | npFloat _ => simp [discreteContains] at h
   | agent _ _ => simp [discreteContains] at h
 
-theorem inSpace_sound (sp : Space) (v : PyVal)
-    (hk2 : ∀ b, sp = .box b → k2Exc b v = false) :
+theorem inSpace_sound (sp : Space) (v : PyVal) :
     (docInSpace sp v = .valid → spaceContains sp v = .yes) ∧
     (docInSpace sp v = .malformed → spaceContains sp v ≠ .yes) := by
   cases sp with
@@ -851,7 +850,7 @@ theorem inSpace_sound (sp : Space) (v : PyVal)
       have := (docNum_malformed_iff _ _ _ _).mp hm x hx
       rw [hok] at this; cases this
   | box b =>
-    have hs := model_meets_specBox_aux b v (hk2 b rfl)
+    have hs := model_meets_specBox_aux b v
     unfold specBox at hs
     constructor
     · intro hv
@@ -883,9 +882,7 @@ theorem docNullPoint_given (sp : Space) (v : PyVal) (h : noNullPoint v = false) 
   | npFloat _ => rfl
   | agent _ _ => rfl
 
-theorem nullPoint_ok (sp : Space) (v : PyVal)
-    (hk2 : ∀ b, sp = .box b → k2Exc b v = false)
-    (hm : nullOutcome sp v ≠ .unmodelled) :
+theorem nullPoint_ok (sp : Space) (v : PyVal) (hm : nullOutcome sp v ≠ .unmodelled) :
     SpecOK (docNullPoint sp v) (nullOutcome sp v) = true := by
   cases hn : noNullPoint v with
   | true =>
@@ -894,7 +891,7 @@ theorem nullPoint_ok (sp : Space) (v : PyVal)
     rcases (noNullPoint_iff v).mp hn with rfl | rfl <;> rfl
   | false =>
     rw [docNullPoint_given sp v hn]
-    obtain ⟨h1, h2⟩ := inSpace_sound sp v hk2
+    obtain ⟨h1, h2⟩ := inSpace_sound sp v
     unfold nullOutcome at hm ⊢
     simp only [hn, Bool.false_eq_true, if_false] at hm ⊢
     cases hd : docInSpace sp v with
@@ -911,10 +908,9 @@ theorem nullPoint_ok (sp : Space) (v : PyVal)
 /-! ## All attributes -/
 
 /-- **the model's outcome satisfies the rejection clause of C19** for every attribute, context and
-value, outside the open finding K2 seen through a null point (`knownExc`) and outside the
-unmodelled inputs -/
+value on which the model is defined (no finding is excepted any more) -/
 theorem model_meets_specAccept_aux (a : Attr) (c : Ctx) (v : PyVal)
-    (hk : knownExc a c v = false) (hm : outcome a c v ≠ .unmodelled) :
+    (hm : outcome a c v ≠ .unmodelled) :
     specAccept a c v (outcome a c v) = true := by
   rw [specAccept_eq]
   cases a with
@@ -958,13 +954,7 @@ theorem model_meets_specAccept_aux (a : Attr) (c : Ctx) (v : PyVal)
       rw [this]; rfl
   | nullPoint =>
     show SpecOK (docNullPoint c.space v) (nullOutcome c.space v) = true
-    apply nullPoint_ok
-    · intro b hb
-      have := hk
-      unfold knownExc nullK2Exc at this
-      simp only [hb] at this
-      simpa using this
-    · exact hm
+    exact nullPoint_ok c.space v hm
 
 end Cfg
 end Abmarl
